@@ -789,9 +789,9 @@ func (d *Document) addFooterReference(footerType HeaderFooterType, footerID stri
 
 // getSectionPropertiesForHeaderFooter 获取或创建带页眉页脚支持的节属性
 func (d *Document) getSectionPropertiesForHeaderFooter() *SectionProperties {
-	// 查找文档中是否已存在节属性
-	for _, element := range d.Body.Elements {
-		if sectPr, ok := element.(*SectionProperties); ok {
+	// 查找文档中是否已存在节属性（最后一个：序列化时写出的就是它，见 getSectionProperties）
+	for i := len(d.Body.Elements) - 1; i >= 0; i-- {
+		if sectPr, ok := d.Body.Elements[i].(*SectionProperties); ok {
 			// 确保设置了关系命名空间
 			if sectPr.XmlnsR == "" {
 				sectPr.XmlnsR = "http://schemas.openxmlformats.org/officeDocument/2006/relationships"
